@@ -147,6 +147,32 @@ local function filter(p, g) return coroutine.wrap(function() for v in g do if p(
 local s = 0 for v in filter(function(x) return x % 3 == 0 end, filter(function(x) return x % 2 == 0 end, gen(N))) do s = s + v end emit("pipeline", s)`},
 }
 
+// quota templates: the program observes its own accounting (status, used
+// memory and cpu of a limited context). They are compared across the builds
+// that have quotas (every tag set but noquotas): pools are optimisations and
+// must not change what is accounted or when a limit is hit.
+var quotaTemplates = []struct{ name, work string }{
+	{"go-calls-with-extra-arguments", `for i = 1, N do local a = select("#", i, i, i, i) local s = string.format("%d %d %d", i, i, i) local ok = pcall(type, i, i, i) local m = math.max(i, 1, 2, 3, 4, 5) end`},
+	{"coroutine-resume-with-arguments", `local co = coroutine.wrap(function(...) while true do coroutine.yield(select("#", ...)) end end) for i = 1, N do co(i, i, i, i) end`},
+	{"varargs-through-lua-frames", `local function pass(n, ...) if n == 0 then return select("#", ...) end return pass(n - 1, ...) end for i = 1, N // 10 do pass(10, i, i, i) end`},
+	{"table-and-string-building", `local t = {} for i = 1, N do t[i] = {i, tostring(i)} end local s = "" for i = 1, N // 10 do s = s .. "x" end`},
+	{"closures-and-calls", `local fs = {} for i = 1, N // 2 do fs[i] = function(a, b) return a + b + i end end local s = 0 for i = 1, #fs do s = s + fs[i](1, 2) end`},
+	{"deep-recursion", `local function d(n) if n == 0 then return 0 end return 1 + d(n - 1) end for r = 1, 5 do d(N // 5) end`},
+	{"error-unwinding", `local function f(n) if n == 0 then error("e", 0) end return 1 + f(n - 1) end for r = 1, N // 20 do pcall(f, 20) end`},
+	{"coroutines-created-and-finished", `for i = 1, N // 4 do local co = coroutine.wrap(function(a) coroutine.yield(a) return a end) co(i) co() end`},
+	{"coroutines-abandoned", `local keep = {} for i = 1, N // 4 do local co = coroutine.wrap(function(a) coroutine.yield(a) end) co(i) keep[i % 7] = co end`},
+	{"sort-and-gsub-callbacks", `local t = {} for i = 1, N // 4 do t[i] = (i * 7919) % 1009 end table.sort(t, function(a, b) return a < b end) local s = (("ab"):rep(N // 8)):gsub("a", function(c) return c .. c end)`},
+	{"nested-contexts", `for i = 1, N // 10 do runtime.callcontext({kill = {memory = 1000000}}, function() local t = {} for j = 1, 10 do t[j] = {j} end pcall(error, "x") end) end`},
+	{"tbc-and-metamethods", `local mt = {__close = function() end, __index = function(t, k) return k end, __add = function(a, b) return 1 end} for i = 1, N // 4 do local o <close> = setmetatable({}, mt) local x = o.foo + (o + o) end`},
+	{"load-and-dump", `for i = 1, N // 50 do local f = load("return " .. i .. " + 1") local g = load(string.dump(f)) g() load("x = = 1") end`},
+}
+
+func quotaProgram(work string, n int, limit string) string {
+	w := strings.ReplaceAll(work, "N", fmt.Sprint(n))
+	return `local ctx = runtime.callcontext({kill = {` + limit + `}}, function() ` + w + ` emit("inside", runtime.context().used.memory, runtime.context().used.cpu) end)
+emit("outside", ctx.status, ctx.used.memory, ctx.used.cpu)`
+}
+
 func TestC14(t *testing.T) {
 	rec := ev.New("C14")
 	defer Finish(t, rec)
@@ -204,6 +230,9 @@ func TestC14(t *testing.T) {
 		}
 		want := canon(base)
 		for _, r := range runners[1:] {
+			if strings.HasPrefix(c.Note, "quota:") && strings.Contains(r.tags, "noquotas") {
+				continue // that build has no accounting to compare
+			}
 			got, errs := r.run(c)
 			if errs != "" {
 				return errs
@@ -253,6 +282,26 @@ func TestC14(t *testing.T) {
 			if msg := compare(c, false); msg != "" && nviol < 5 {
 				nviol++
 				rec.Violation("program", c, "template "+c.Note+": "+msg+"\n"+progcheck.Numbered(src))
+			}
+		}
+	}
+	// quota templates (builds with quotas only)
+	for _, tpl := range quotaTemplates {
+		for _, n := range []int{40, 400, 4000} {
+			for _, limit := range []string{"memory = 50000", "memory = 2000000", "cpu = 20000", "cpu = 5000000, memory = 100000000"} {
+				idx++
+				if !rec.Mine(idx) {
+					continue
+				}
+				src := quotaProgram(tpl.work, n, limit)
+				c := progcheck.Case{Source: src, Note: fmt.Sprintf("quota:%s N=%d %s", tpl.name, n, limit)}
+				rec.Eval()
+				rec.Class("quota-template:" + tpl.name)
+				rec.NonTrivial(src)
+				if msg := compare(c, false); msg != "" && nviol < 5 {
+					nviol++
+					rec.Violation("program", c, "template "+c.Note+": "+msg+"\n"+progcheck.Numbered(src))
+				}
 			}
 		}
 	}
